@@ -490,6 +490,12 @@ class Tee(Generic[T]):
     async def aclose(self) -> None:
         for child in self._children:
             await child.aclose()
+        # children that were never started do not run any cleanup when closed:
+        # unregister their buffers and close the iterator on their behalf
+        if self._buffers:
+            self._buffers.clear()
+            if isinstance(self._iterator, ACloseable):
+                await self._iterator.aclose()
 
 
 tee = Tee
